@@ -14,7 +14,7 @@ func mask(rsize int) uint64 {
 }
 
 // EvalFrag runs one activation of a fragment.
-func EvalFrag(f Frag, rsize int, in []uint64) ([]uint64, error) {
+func EvalFrag(f Frag, rsize int, in []uint64, kparam int) ([]uint64, error) {
 	m := mask(rsize)
 	reg := map[int]uint64{}
 	for j, r := range f.In {
@@ -62,6 +62,8 @@ func EvalFrag(f Frag, rsize int, in []uint64) ([]uint64, error) {
 			a = 0
 		case "rset":
 			a = uint64(i.B)
+		case "rsetk":
+			a = uint64(kparam)
 		default:
 			return nil, fmt.Errorf("line %d: opcode %q", k, i.Op)
 		}
@@ -91,7 +93,11 @@ func EvalGraph(c *Case) ([]uint64, error) {
 				args[j] = vals[s.Inst][s.Port]
 			}
 		}
-		out, err := EvalFrag(f, c.Rsize, args)
+		k := f.DefK
+		if in.HasK {
+			k = in.K
+		}
+		out, err := EvalFrag(f, c.Rsize, args, k)
 		if err != nil {
 			return nil, fmt.Errorf("instance %d: %v", i, err)
 		}
